@@ -1,11 +1,21 @@
 import QcelVerif.Model.Units
+import QcelVerif.Model.UnitText
 import QcelVerif.Gen.UnitsCodata
+import QcelVerif.Gen.UnitNames
 import QcelVerif.Lib.Proto
 /-!
 Line-protocol driver for the C03 models.
 
     conv|<2014|2018>|<expr>|<expr>     →  impl <res>;si <res>;phys <res>
     sel|<expr>                          →  what `_find_nist_unit` returns on the parsed source (debug/tie)
+
+    convs|<2014|2018>|<arg>|<arg>      →  impl <cres>;si <cres>;phys <cres>;pa <pexpr>;pb <pexpr>;ia <pexpr>;ib <pexpr>
+                                          the arguments as the caller passes them (text level, Model/UnitText.lean):
+                                          `s:<text>` str | `q:<rat>:<text>` Quantity | `d:<text>` Quantity with a Decimal
+                                          magnitude | `u:<text>` Unit | `o` any other object;
+                                          `pa/pb` the expression the text means, `ia/ib` what parse_expression computes
+    spell|<pexp>|<base>                 →  the spellings `Units.Text.spellingsOf` lists for that prefix, comma-separated
+    res|<name>                          →  key <canonical registry key>|err <class> ; unit <pexp> <base>|none
 
 `<expr>` is a prefix-notation token list:  `n <rat>` | `u <pexp> <base>` | `* a b` | `/ a b` | `^ <int> a`.
 `<res>` is `ok <rat>` | `err Dimensionality` | `err UndefinedUnit`.
@@ -101,4 +111,108 @@ def stepC03 (line : String) : String :=
     | none => "bad-op"
   | _ => "bad-op"
 
-def main : IO Unit := mainLoop stepC03
+/-! ### text level -/
+open QcelVerif.Units.Text in
+def showAu : AuU → String
+  | .hyper1 => "hyper1" | .hyper2 => "hyper2" | .action => "action" | .chargeDensity => "chargeDensity"
+  | .current => "current" | .dipole => "dipole" | .efield => "efield" | .efg => "efg"
+  | .polarizability => "polarizability" | .potential => "potential" | .quadrupole => "quadrupole"
+  | .force => "force" | .magDipole => "magDipole" | .magFlux => "magFlux" | .magnetizability => "magnetizability"
+  | .momentum => "momentum" | .permittivity => "permittivity" | .time => "time" | .velocity => "velocity"
+
+def showBase : Base → String
+  | .meter => "meter" | .angstrom => "angstrom" | .angstromCap => "angstromCap" | .bohr => "bohr" | .inch => "inch"
+  | .foot => "foot" | .yard => "yard" | .mile => "mile" | .gram => "gram" | .amu => "amu" | .emass => "emass"
+  | .second => "second" | .minute => "minute" | .hour => "hour" | .ampere => "ampere" | .kelvin => "kelvin"
+  | .rankine => "rankine" | .mole => "mole" | .coulomb => "coulomb" | .echarge => "echarge" | .statC => "statC"
+  | .joule => "joule" | .calorie => "calorie" | .eV => "eV" | .hartree => "hartree" | .erg => "erg"
+  | .hertz => "hertz" | .wavenumber => "wavenumber" | .debye => "debye" | .newton => "newton" | .dyne => "dyne"
+  | .pascal => "pascal" | .bar => "bar" | .atm => "atm" | .torr => "torr" | .volt => "volt" | .tesla => "tesla"
+  | .farad => "farad" | .watt => "watt" | .auPressure => "auPressure" | .au u => "au:" ++ showAu u
+
+/-- the prefix notation `parseWhole?` reads -/
+def showExpr : Expr → String
+  | .num q => "n " ++ showRat q
+  | .unit p b => s!"u {p} {showBase b}"
+  | .mul a b => s!"* {showExpr a} {showExpr b}"
+  | .div a b => s!"/ {showExpr a} {showExpr b}"
+  | .pow a n => s!"^ {n} {showExpr a}"
+
+def showTErr : Text.TErr → String
+  | .syntax => "Syntax" | .token => "Token" | .assertion => "Assertion"
+  | .undefinedUnit => "UndefinedUnit" | .unsupported => "Unsupported"
+
+def showCRes : Except Text.CErr Rat → String
+  | .ok r => "ok " ++ showRat r
+  | .error (.text e) => "err " ++ showTErr e
+  | .error (.conv .dimensionality) => "err Dimensionality"
+  | .error (.conv .undefinedUnit) => "err UndefinedUnit"
+  | .error .typeError => "err TypeError"
+  | .error .attributeError => "err AttributeError"
+
+def showParsed : Except Text.TErr Expr → String
+  | .ok e => showExpr e
+  | .error e => "err " ++ showTErr e
+
+def bytesOf (s : String) : PStr.Bytes := s.toList.map Char.toNat
+
+/-- split at the first `:` -/
+def cutColon (l : List Char) : List Char × List Char :=
+  (l.takeWhile (· != ':'), (l.dropWhile (· != ':')).drop 1)
+
+def argOf? (s : String) : Option Text.Arg :=
+  match s.toList with
+  | ['o'] => some .other
+  | 's' :: ':' :: t => some (.str (t.map Char.toNat))
+  | 'd' :: ':' :: t => some (.qtyDecimal (t.map Char.toNat))
+  | 'u' :: ':' :: t => some (.unit (t.map Char.toNat))
+  | 'q' :: ':' :: t =>
+    let (m, txt) := cutColon t
+    (parseRat? (String.ofList m)).map (fun q => .qty q (txt.map Char.toNat))
+  | _ => none
+
+def argText : Text.Arg → Option PStr.Bytes
+  | .str s => some s | .qty _ s => some s | .qtyDecimal s => some s | .unit s => some s | .other => none
+
+def showArgParse (parse : PStr.Bytes → Except Text.TErr Expr) (a : Text.Arg) : String :=
+  match argText a with
+  | some s => showParsed (parse s)
+  | none => "none"
+
+def stepText (line : String) : Option String :=
+  match splitOnChar line '|' with
+  | ["convs", ctx, a, b] =>
+    match codataOf? (trimStr ctx), argOf? a, argOf? b with
+    | some cd, some a, some b =>
+      let pT := Text.parseText Gen.nameReg
+      let pI := Text.parseImpl Gen.nameReg
+      some (s!"impl {showCRes (Text.convArgs pI (convImpl cd) a b)};si {showCRes (Text.convArgs pT (conv cd) a b)};" ++
+        s!"phys {showCRes (Text.convArgs pT (convPhys cd) a b)};pa {showArgParse pT a};pb {showArgParse pT b};" ++
+        s!"ia {showArgParse pI a};ib {showArgParse pI b}")
+    | _, _, _ => some "bad-op"
+  | ["res", name] =>
+    let nm := bytesOf name
+    let k := match Text.resolveKey Gen.nameReg nm with
+      | .ok key => "key " ++ String.ofList (key.map Char.ofNat)
+      | .error e => "err " ++ showTErr e
+    let u := match Text.resolveUnit Gen.nameReg nm with
+      | .ok (p, b) => s!"unit {p} {showBase b}"
+      | .error _ => "none"
+    some (k ++ ";" ++ u)
+  | ["spell", pe, bn] =>
+    match parseInt? pe, baseOfName? (trimStr bn) with
+    | some pe, some x =>
+      let l := if pe == 0 then Text.spellings0 x
+               else match Text.siPrefixes.find? (fun q => q.1 == pe) with
+                 | some pre => Text.spellingsP pre x
+                 | none => []
+      some (",".intercalate (l.map (fun sp => String.ofList (sp.name.map Char.ofNat))))
+    | _, _ => some "bad-op"
+  | _ => none
+
+def stepAll (line : String) : String :=
+  match stepText line with
+  | some r => r
+  | none => stepC03 line
+
+def main : IO Unit := mainLoop stepAll
